@@ -301,6 +301,19 @@ class ExprMixin:
             return self.eng.ct.cls(name)
         if name in self.module.functions:
             return smt.const("fn:%s.%s" % (self.module.name, name))
+        # module-level constant  NAME = <literal>
+        for node in self.module.tree.body:
+            if isinstance(node, ast.Assign) and len(node.targets) == 1 and isinstance(node.targets[0], ast.Name) \
+                    and node.targets[0].id == name and isinstance(node.value, ast.Constant):
+                v = node.value.value
+                if isinstance(v, bool):
+                    return TRUE if v else FALSE
+                if isinstance(v, int):
+                    return smt.mk_int(v)
+                if isinstance(v, str):
+                    return smt.const("str:" + v[:60])
+                if v is None:
+                    return NONE
         if name in self.module.aliases:
             return smt.const("mod:" + name)
         if name == "NotImplemented":
@@ -492,6 +505,13 @@ class ExprMixin:
             me = a if other is b else b
             isint = z3.Or(V.is_ival(other), V.is_bval(other))
             return z3.And(isint, smt.int_of(other) == as_int(me))
+        # classes, None and markers compare by identity
+        for x in (a, b):
+            for n, c in smt._consts.items():
+                if c.eq(x) and (n.startswith("cls:") or n in ("_none", "NotImplemented")):
+                    return a == b
+            if x.eq(NONE):
+                return a == b
         return z3.Or(a == b, PY_EQ(a, b))
 
     def ev_Compare(self, e, st):
@@ -541,7 +561,13 @@ class ExprMixin:
                 elif tb == "str":
                     r = STR_CONTAINS(b, a)
                 elif tb == "tuple" and isinstance(e.comparators[0], ast.Tuple):
-                    r = z3.Or(*[self.py_eq(a, smt.titem(b, z3.IntVal(i))) for i in range(len(e.comparators[0].elts))])
+                    alts = []
+                    for i, el in enumerate(e.comparators[0].elts):
+                        if isinstance(el, ast.Name) and el.id not in st2.locals and self.eng.ct.known(el.id):
+                            alts.append(a == self.eng.ct.cls(el.id))        # classes compare by identity
+                        else:
+                            alts.append(self.py_eq(a, smt.titem(b, z3.IntVal(i))))
+                    r = z3.Or(*alts)
                 else:
                     raise Undecided("`in` on %s (static type %s) line %d" % (ast.unparse(e.comparators[0]), tb, e.lineno))
                 if isinstance(op, ast.NotIn):
@@ -682,6 +708,33 @@ class ExprMixin:
         self.synth_keep.append(loop)
         st.locals[acc] = self.new_list(st)
         st.ltypes[acc] = "list"
+        for st2, out in self.st_For(loop, st):
+            if out == ("normal",):
+                yield st2, st2.locals[acc], None
+            elif out[0] == "raise":
+                yield st2, None, out[1]
+            else:
+                raise Undecided("comprehension outcome")
+
+    def ev_DictComp(self, e, st):
+        from .symexec import Undecided
+        if len(e.generators) != 1 or e.generators[0].is_async or e.generators[0].ifs:
+            raise Undecided("dict comprehension shape")
+        g = e.generators[0]
+        k = self.loop_ordinal(e)
+        acc = "_c%d" % k
+        store = ast.Assign(targets=[ast.Subscript(value=ast.Name(id=acc, ctx=ast.Load()), slice=e.key, ctx=ast.Store())],
+                           value=e.value)
+        loop = ast.For(target=g.target, iter=g.iter, body=[store], orelse=[])
+        ast.copy_location(loop, e)
+        ast.fix_missing_locations(loop)
+        self.synth[id(loop)] = k
+        self.synth_keep.append(loop)
+        d = self.alloc(st, "dict")
+        st.heap.store("$dhas", d, z3.K(V, z3.BoolVal(False)))
+        st.heap.store("$olen", d, z3.IntVal(0))
+        st.locals[acc] = d
+        st.ltypes[acc] = "dict"
         for st2, out in self.st_For(loop, st):
             if out == ("normal",):
                 yield st2, st2.locals[acc], None
